@@ -31,6 +31,7 @@ type Engine struct {
 	srcCache  map[string][]byte
 	posNodes  map[*ssa.Function]map[token.Pos]ast.Node
 	fatals    []string
+	axiomsUsed map[string]bool
 	repo      string
 }
 
